@@ -105,7 +105,7 @@ func sanitizersForAttributeValue(c context) ([]string, error) {
 		return reverse(appendIfNotEmpty(ret, sanitizer)), nil
 	}
 	urlAttrValPrefix := c.attr.value
-	if urlAttrValPrefix == "" {
+	if urlAttrValPrefix == "" && !c.attr.ambiguousValue {
 		// Attribute value prefixes in URL or TrustedResourceURL sanitization contexts
 		// must sanitized and normalized.
 		return reverse(appendIfNotEmpty(ret, normalizeURLFuncName, sanitizer)), nil
